@@ -45,6 +45,10 @@ def main():
     a = ap.parse_args()
     seed = int(os.environ.get('VERIF_SEED', '1'))
     P = load_plugin(a.prop)
+    if not a.replay:
+        # replays of earlier runs would be mistaken for results of this one
+        import shutil
+        shutil.rmtree(os.path.join(VERIF, 'replays', P.ID), ignore_errors=True)
     if hasattr(P, 'main'):
         # properties with a dedicated flow (thread pool, multi-context)
         sys.exit(P.main(a.tier, seed, a.replay))
